@@ -4,7 +4,7 @@
    can carry the fault: b needs at least two characters, the promoted a must not be negative. *)
 From Verif Require Import Base.Prelude Base.Str Base.Float Base.GoVal Base.XReflect
   Schema.Regex Schema.Units Schema.Syntax Schema.Ops Schema.XSyntax Schema.XOps
-  Proofs.XStruct Proofs.XPaths Proofs.XExamples Proofs.C17ObjectU Proofs.C17Struct.
+  Proofs.XStruct Proofs.XPaths Proofs.XExamples Proofs.C17ObjectU Proofs.C17Struct Proofs.C17StructPos.
 Open Scope string_scope.
 Open Scope Z_scope.
 Open Scope list_scope.
@@ -167,4 +167,87 @@ Proof.
   - apply (struct_validate_wrong_type w_words w_pu). reflexivity.
   - apply (struct_serialize_wrong_type w_words w_pu). reflexivity.
   - vm_compute. reflexivity.
+Qed.
+
+(* ---------- positions (Proofs/C17StructPos.v): the fault two levels down, through the reference ---------- *)
+Ltac c17s_nodup := cbn [map fst]; repeat constructor; cbn [In]; intuition discriminate.
+
+Example c17s_pos_unser_ex :
+  fault_xu w_words w_pu c17s_env 12 c17s_nested (obj_val t_any_map false c17s_raw) ["p"; "b"].
+Proof.
+  unfold c17s_nested.
+  eapply (XU_prop w_words w_pu c17s_env 11 "XNested" false _ "p" c17s_pp (Some c17s_nested_si) t_any_map false c17s_raw).
+  - repeat constructor.
+  - c17s_nodup.
+  - cbn [In]. tauto.
+  - vm_compute. reflexivity.
+  - intros np [<- | [<- | [<- | []]]] Hne; try (exfalso; apply Hne; reflexivity);
+      unfold xprop_fine; vm_compute; (exact I || (split; [reflexivity | eexists; reflexivity])).
+  - vm_compute. reflexivity.
+  - reflexivity.
+  - eapply (XU_ref w_words w_pu c17s_env 10 "XInner" "" None c17s_inner c17s_env); [vm_compute; reflexivity|].
+    unfold c17s_inner.
+    eapply (XU_prop w_words w_pu c17s_env 9 "XInner" false _ "b" c17s_pb (Some c17s_inner_si) t_any_map false [("b", vstr "q")]).
+    + repeat constructor.
+    + c17s_nodup.
+    + cbn [In]. tauto.
+    + vm_compute. reflexivity.
+    + intros np [<- | [<- | []]] Hne; try (exfalso; apply Hne; reflexivity);
+        unfold xprop_fine; vm_compute; (exact I || (split; [reflexivity | eexists; reflexivity])).
+    + vm_compute. reflexivity.
+    + reflexivity.
+    + apply (XU_leaf w_words w_pu c17s_env 8 (XString (Some 2) None None) (vstr "q")); [exact I|].
+      intros n H. vm_compute in H. discriminate H.
+Qed.
+
+Example c17s_pos_validate_ex :
+  fault_xv w_words w_pu c17s_env 12 c17s_nested c17s_native ["p"; "b"].
+Proof.
+  unfold c17s_nested.
+  eapply (XV_prop w_words w_pu c17s_env 11 "XNested" false _ "p" c17s_pp c17s_nested_si c17s_native).
+  - vm_compute. reflexivity.
+  - intros np [<- | [<- | [<- | []]]]; vm_compute; discriminate.
+  - c17s_nodup.
+  - cbn [In]. tauto.
+  - intros np y [<- | [<- | [<- | []]]] Hne H; try (exfalso; apply Hne; reflexivity);
+      vm_compute in H; inversion H; subst y; vm_compute; reflexivity.
+  - vm_compute. reflexivity.
+  - eapply (XV_ref w_words w_pu c17s_env 10 "XInner" "" None c17s_inner c17s_env); [vm_compute; reflexivity|].
+    unfold c17s_inner.
+    eapply (XV_prop w_words w_pu c17s_env 9 "XInner" false _ "b" c17s_pb c17s_inner_si (xs_inner_v 1 "q")).
+    + vm_compute. reflexivity.
+    + intros np [<- | [<- | []]]; vm_compute; discriminate.
+    + c17s_nodup.
+    + cbn [In]. tauto.
+    + intros np y [<- | [<- | []]] Hne H; try (exfalso; apply Hne; reflexivity);
+        vm_compute in H; inversion H; subst y; vm_compute; reflexivity.
+    + vm_compute. reflexivity.
+    + apply (XV_leaf w_words w_pu c17s_env 8 (XString (Some 2) None None) (vstr "q")); [exact I|].
+      intros H. vm_compute in H. discriminate H.
+Qed.
+
+Example c17s_pos_serialize_ex :
+  fault_xs w_words w_pu c17s_env 12 c17s_nested c17s_native ["p"; "b"].
+Proof.
+  unfold c17s_nested.
+  eapply (XS_prop w_words w_pu c17s_env 11 "XNested" false _ "p" c17s_pp c17s_nested_si c17s_native).
+  - vm_compute. reflexivity.
+  - intros np [<- | [<- | [<- | []]]]; vm_compute; discriminate.
+  - c17s_nodup.
+  - cbn [In]. tauto.
+  - intros np y [<- | [<- | [<- | []]]] Hne H; try (exfalso; apply Hne; reflexivity);
+      vm_compute in H; inversion H; subst y; eexists; vm_compute; reflexivity.
+  - vm_compute. reflexivity.
+  - eapply (XS_ref w_words w_pu c17s_env 10 "XInner" "" None c17s_inner c17s_env); [vm_compute; reflexivity|].
+    unfold c17s_inner.
+    eapply (XS_prop w_words w_pu c17s_env 9 "XInner" false _ "b" c17s_pb c17s_inner_si (xs_inner_v 1 "q")).
+    + vm_compute. reflexivity.
+    + intros np [<- | [<- | []]]; vm_compute; discriminate.
+    + c17s_nodup.
+    + cbn [In]. tauto.
+    + intros np y [<- | [<- | []]] Hne H; try (exfalso; apply Hne; reflexivity);
+        vm_compute in H; inversion H; subst y; eexists; vm_compute; reflexivity.
+    + vm_compute. reflexivity.
+    + apply (XS_leaf w_words w_pu c17s_env 8 (XString (Some 2) None None) (vstr "q")); [exact I|].
+      intros w H. vm_compute in H. discriminate H.
 Qed.
